@@ -73,6 +73,43 @@ func (rep *report) finish(ld *loaded, known map[string]knownFinding, noReplay bo
 			os.WriteFile(filepath.Join(outDir, "replay.log"), []byte(log), 0o644)
 		}
 	}
+	// frozen-write findings whose native deep-dump comparison shows no difference (a store of an equal value)
+	// get a second native confirmation: the same harness twice at once under the race detector
+	if len(refs) > 0 && !noReplay && results != nil {
+		raceItems := map[string][]replayItem{}
+		for _, r := range refs {
+			if r.f.Kind != "frozen-write" {
+				continue
+			}
+			res, ok := results[r.id]
+			if !ok || res.Result != "ok" {
+				continue
+			}
+			confirmed := false
+			for _, l := range res.Labels {
+				confirmed = confirmed || l == r.f.Label
+			}
+			if !confirmed {
+				raceItems[r.hr.Rel] = append(raceItems[r.hr.Rel], replayItem{ID: r.id, Harness: r.hr.Name, Model: r.f.Model})
+			}
+		}
+		if len(raceItems) > 0 {
+			rres, _, err := nativeReplayMode(ld.hfs, raceItems, filepath.Join(outDir, "race"), true)
+			if err != nil {
+				rep.Notes = append(rep.Notes, "race-detector replay failed: "+err.Error())
+			}
+			for id, rr := range rres {
+				for _, l := range rr.Labels {
+					if strings.HasPrefix(l, "race-write:") {
+						res := results[id]
+						res.Result, res.Msg, res.RaceWrite = "fail", l, true
+						results[id] = res
+						break
+					}
+				}
+			}
+		}
+	}
 	violations := 0
 	var violationLines, knownLines, mismatchLines []string
 	knownSeen := map[string]bool{}
@@ -91,6 +128,9 @@ func (rep *report) finish(ld *loaded, known map[string]knownFinding, noReplay bo
 				if l == r.f.Label {
 					confirmed = true
 				}
+			}
+			if r.f.Kind == "frozen-write" && res.RaceWrite {
+				confirmed = true
 			}
 		case "known":
 			for _, l := range res.Labels {
